@@ -49,6 +49,28 @@ def build(clean: bool = False, jobs: int = 8, timeout: int = 1500) -> tuple[bool
         lock.close()
 
 
+def clean_build(work: Path, jobs: int = 12, timeout: int = 3000) -> tuple[bool, str, Path]:
+    """Full .vo build from clean in a private copy of the project (thorough tier): does not disturb the
+    shared build directory, so several checks can run at the same time."""
+    import shutil
+
+    dst = Path(work) / "coqclean"
+    if dst.exists():
+        shutil.rmtree(dst)
+    dst.mkdir(parents=True)
+    listed = [l.strip() for l in (COQ / "_CoqProject").read_text().splitlines() if l.strip().endswith(".v")]
+    for rel in listed:
+        (dst / rel).parent.mkdir(parents=True, exist_ok=True)
+        shutil.copy2(COQ / rel, dst / rel)
+    shutil.copy2(COQ / "_CoqProject", dst / "_CoqProject")
+    try:
+        subprocess.run(["coq_makefile", "-f", "_CoqProject", "-o", "Makefile"], cwd=dst, check=True, capture_output=True, timeout=120)
+        p = subprocess.run(["make", f"-j{jobs}"], cwd=dst, capture_output=True, text=True, timeout=timeout)
+        return p.returncode == 0, (p.stdout + p.stderr)[-3000:], dst
+    except Exception as e:  # noqa: BLE001
+        return False, str(e), dst
+
+
 def hygiene() -> list[str]:
     """Forbidden declarations anywhere in the development (comments stripped)."""
     bad = []
